@@ -1,4 +1,5 @@
 import SkfemVerif.Lemmas.Topology
+import SkfemVerif.Lemmas.Topology2
 /-
 C11  Derived mesh connectivity is coherent with the cell list.
 
@@ -156,6 +157,62 @@ theorem C11_f2t0_contains (nt : Nat) (hnt : 0 < nt) (mapping : List (List Nat))
     simp only [hcd]; exact hget
   rw [h2] at this
   exact this
+
+/-- `f2t[1][f]`, when it is not `-1`, is a cell that names `f` as well -/
+theorem C11_f2t1_contains (nt : Nat) (hnt : 0 < nt) (mapping : List (List Nat))
+    (hrows : ∀ r ∈ mapping, r.length = nt) (f : Nat) (hf : f ∈ mapping.flatten) :
+    ∃ i, ∃ hi : i < mapping.length,
+      ∃ hk : lastCell nt mapping.flatten f < (mapping[i]).length,
+        (mapping[i])[lastCell nt mapping.flatten f] = f := by
+  obtain ⟨hpos, hget⟩ := lastPos_spec mapping.flatten f hf
+  obtain ⟨hi, hk, h⟩ := flat_pos_slot_cell nt hnt mapping hrows _ hpos
+  exact ⟨_, hi, hk, h.trans hget⟩
+
+/-- **facet-to-cell table, exactly**: if the facet `f` is named in at most two slots of the whole
+    table (manifold hypothesis: a facet lies in at most two cells, and a cell names it once), then the
+    cells naming `f` are exactly `f2t[0][f]` and (when different) `f2t[1][f]` -/
+theorem C11_f2t_spec (nt : Nat) (hnt : 0 < nt) (mapping : List (List Nat))
+    (hrows : ∀ r ∈ mapping, r.length = nt) (f : Nat) (hf : f ∈ mapping.flatten)
+    (htwo : mapping.flatten.count f ≤ 2) (k : Nat) (hk : k < nt) :
+    (∃ i, ∃ hi : i < mapping.length, (mapping[i]).getD k (f + 1) = f)
+      ↔ (k = firstCell nt mapping.flatten f ∨ k = lastCell nt mapping.flatten f) := by
+  constructor
+  · rintro ⟨i, hi, h⟩
+    have hkl : k < (mapping[i]).length := by rw [hrows _ (List.getElem_mem hi)]; exact hk
+    have hval : (mapping[i])[k] = f := by
+      simpa [List.getD_eq_getElem?_getD, List.getElem?_eq_getElem hkl] using h
+    obtain ⟨h1, h2⟩ := flatten_getElem_of_uniform mapping nt hrows i k hi hk
+    have hmod := mul_add_mod_of_lt i nt k hk
+    rcases pos_first_or_last mapping.flatten f (i * nt + k) h1 (h2.trans hval) htwo with hc | hc
+    · left
+      rw [firstCell, ← hc, hmod]
+    · right
+      rw [lastCell, ← hc, hmod]
+  · rintro (h | h)
+    · obtain ⟨i, hi, hk', hv⟩ := C11_f2t0_contains nt hnt mapping hrows f hf
+      refine ⟨i, hi, ?_⟩
+      rw [h]
+      simp [List.getD_eq_getElem?_getD, List.getElem?_eq_getElem hk', hv]
+    · obtain ⟨i, hi, hk', hv⟩ := C11_f2t1_contains nt hnt mapping hrows f hf
+      refine ⟨i, hi, ?_⟩
+      rw [h]
+      simp [List.getD_eq_getElem?_getD, List.getElem?_eq_getElem hk', hv]
+
+/-- `-1` in row 1 marks exactly the facets with a single neighbour: the value is `-1` iff first and
+    last naming cell coincide -/
+theorem C11_f2t_boundary_iff (nt : Nat) (mapping : List (List Nat)) (f : Nat)
+    (hf : f < listMax mapping.flatten + 1) :
+    (buildInverse nt mapping).2.getD f 0 = -1
+      ↔ firstCell nt mapping.flatten f = lastCell nt mapping.flatten f := by
+  rw [buildInverse_snd_getD nt mapping f hf]
+  constructor
+  · intro h
+    by_cases hc : firstCell nt mapping.flatten f = lastCell nt mapping.flatten f
+    · exact hc
+    · rw [if_neg hc] at h
+      omega
+  · intro h
+    rw [if_pos h]
 
 /-! ### non-vacuity: two triangles sharing an edge -/
 
